@@ -3,7 +3,7 @@ From Coq Require Import NArith List.
 From Fsn Require Import Bytes BytesProofs.
 From stdpp Require Import gmap strings list.
 From Fsn Require Import PathLex Tables Doc Watcher System Spec SpecDefs Refine SpecInv SpecStream SpecWatchSet Transfer.
-From Fsn Require PathLexProofs.
+From Fsn Require PathLexProofs PathLexMore.
 Local Open Scope N_scope.
 
 (* an event is named after the stored spelling of its watch: that spelling itself for the watched path, spelling + "/" +
@@ -44,6 +44,21 @@ Proof. exact PathLexProofs.clean_no_double_slash. Qed.
 Theorem C08_clean_no_trailing_slash : forall p, clean p <> "/"%string -> ~ (exists a, clean p = (a ++ "/")%string).
 Proof. exact PathLexProofs.clean_no_trailing_slash. Qed.
 
+(* redundant spellings of one argument are stored — hence reported — alike: "./" prefix, trailing "/", "d/../" detour *)
+Theorem C08_dot_slash_invisible : forall p, p <> ""%string -> rooted p = false -> clean ("./" ++ p)%string = clean p.
+Proof. exact PathLexMore.clean_dot_slash. Qed.
+Theorem C08_trailing_slash_invisible : forall p, p <> ""%string -> clean (p ++ "/")%string = clean p.
+Proof. exact PathLexProofs.clean_trailing_slash. Qed.
+Theorem C08_detour_invisible : forall d p,
+  PathLexProofs.no_slash d -> d <> ""%string -> d <> "."%string -> d <> ".."%string -> p <> ""%string -> rooted p = false ->
+  clean (d ++ "/../" ++ p)%string = clean p.
+Proof. exact PathLexMore.clean_detour. Qed.
+Theorem C08_clean_idempotent : forall p, clean (clean p) = clean p.
+Proof. exact PathLexProofs.clean_idem. Qed.
+Example C08_spellings_example :
+  clean "./d//sub/../" = "d"%string /\ clean "d/../d/" = "d"%string /\ clean "./d/" = "d"%string.
+Proof. vm_compute. auto. Qed.
+
 Example C08_example :
   let h := [SAdd "./d//sub/../" 31 false [("d"%string, (inr 7, inr 7))];
             KEmit (mkRaw 1 256 0 16 "0123456789abcdef"); SHandle []] in
@@ -58,3 +73,7 @@ Print Assumptions C08_trim_exact.
 Print Assumptions C08_name_roundtrip.
 Print Assumptions C08_clean_no_double_slash.
 Print Assumptions C08_clean_no_trailing_slash.
+Print Assumptions C08_dot_slash_invisible.
+Print Assumptions C08_trailing_slash_invisible.
+Print Assumptions C08_detour_invisible.
+Print Assumptions C08_clean_idempotent.
